@@ -2,6 +2,7 @@ SPECIFICATION Spec
 CONSTANTS
   MaxScales = 3
   MaxLen = 4
+  RescaleOnSameList = TRUE
   KeepCallersList = FALSE
   ShareListsOnCopy = TRUE
   Doms = {"dA", "dB"}
